@@ -7,6 +7,7 @@ runs at `α = ℚ`), for every field `α` and all sizes.  Helper lemmas over abs
 -/
 import GPVerif.Bridge.FantasyModel
 import GPVerif.Gen.FantasyFrame
+import GPVerif.Gen.FantasyAlgebra
 
 open Matrix Fantasy FantasyBridge
 
@@ -242,6 +243,99 @@ theorem fantasy_likelihood_frame_exc (s : Nat → Frame.Val) :
     simp [Frame.runExc, Frame.stepExc, Frame.Op.run, Frame.upd, Frame.start,
       Gen.FantasyFrame.fixedNoiseFantasyLikelihoodOps] <;> grind
   · simp [Frame.runExc, Frame.stepExc, Frame.Op.run, Frame.start, Gen.FantasyFrame.fixedNoiseFantasyLikelihoodOps]
+
+/-! ## The algebra regenerated from the Python source (`Gen/FantasyAlgebra.lean`) is the hand-written model
+
+so that every theorem above applies to what `get_fantasy_strategy` & co. literally compute. -/
+
+section generated
+open Gen.FantasyAlgebra
+
+/-- `DefaultPredictionStrategy.get_fantasy_strategy`: the value written to `mean_cache`, `schur_complement` and
+`fant_solve`, translated statement by statement from the AST, are the model's `step?` (mean component), `schur`,
+`fantSolve` with `r_f = targets − fant_mean`; the cache is written on the *new* strategy; `S` is the fantasy block
+passed through the fantasy likelihood with the call-time kwargs. -/
+theorem gen_fant_step_eq_model (st : FState n α) (U : DMat f n α) (S : DMat f f α) (targets fantMean : DMat f 1 α) :
+    defaultMeanCache? st.Kinv st.mean U S targets fantMean =
+        (step? st U S (targets.sub fantMean)).map (fun s => s.mean) ∧
+    defaultSchur st.Kinv st.mean U S targets fantMean = schur S U (fantSolve st.Kinv U) ∧
+    defaultFantSolve st.Kinv st.mean U S targets fantMean = fantSolve st.Kinv U ∧
+    defaultCacheTargets = [("fant_strat", "mean_cache"), ("fant_strat", "covar_cache")] ∧
+    defaultObsCovar = [("fant_fant_prior", "full_covar[num_train:, num_train:]"),
+      ("mvn", "self.train_prior_dist.__class__(fant_mean, fant_fant_covar)"),
+      ("fant_likelihood", "self.likelihood.get_fantasy_likelihood(**kwargs)"),
+      ("mvn_obs", "fant_likelihood(mvn, inputs, **kwargs)")] := by
+  refine ⟨?_, rfl, rfl, by decide, by decide⟩
+  simp only [defaultMeanCache?, step?, fantSolve, schur, cacheLower, cacheUpper]
+  cases (S.sub (U.mul (st.Kinv.mul U.transpose))).inv? <;> rfl
+
+/-- `new_root` / `new_covar_cache` / the `covar_cache` entry are `cat_rows` of the strategy's own
+`lik_train_train_covar` with `cross_mat = fant_train_covar`, `new_mat = fant_fant_covar` (with fantasy noise), i.e.
+the model's `rootUpdate` / `invRootUpdate`; they are what is handed to the new strategy as `root=` / `inv_root=`. -/
+theorem gen_root_update_eq_model (L R : DMat n p α) (G : DMat f q α) (Ginv : DMat q f α) (U : DMat f n α)
+    (S : DMat f f α) :
+    defaultNewRoot L R G Ginv U S = rootUpdate L R U G ∧
+    defaultNewInvRoot L R G Ginv U S = invRootUpdate R U Ginv ∧
+    defaultCovarCache L R G Ginv U S = invRootUpdate R U Ginv ∧
+    defaultCatRowsNew L R G Ginv U S = S ∧
+    defaultStrategyKwargs = [("likelihood", "fant_likelihood"), ("root", "new_root"), ("inv_root", "new_covar_cache"),
+      ("train_labels", "full_targets"), ("train_inputs", "full_inputs")] :=
+  ⟨rfl, rfl, rfl, rfl, by decide⟩
+
+/-- WISKI: the generated cache updates are the model's (`V Vᵀ` with `V = W_f D_f^{-1/2}` is `W_f D_f⁻¹ W_fᵀ` for any
+square root `Sᵀ S = D_f⁻¹` delivered by `sqrt_inv_matmul`), and the generated `fantasy_mean_cache` /
+`fantasy_covar_cache` are the model's Woodbury forms **with the constant `add_jitter(1.0)` = 1**. -/
+theorem gen_wiski_eq_model {m : Nat} (P : DMat m m α) (c : DMat m 1 α) (Wf : DMat m f α) (Dfinv Sq : DMat f f α)
+    (targets fantMean : DMat f 1 α) (hS : Sq.toMatrixᵀ * Sq.toMatrix = Dfinv.toMatrix)
+    (K : DMat m m α) (L : DMat m p α) :
+    (wiskiInnerProd P c Wf Dfinv Sq targets fantMean).toMatrix = (wiskiInnerUpdate P Wf Dfinv).toMatrix ∧
+    wiskiResponseCache P c Wf Dfinv Sq targets fantMean = wiskiResponseUpdate c Wf Dfinv (targets.sub fantMean) ∧
+    Gen.FantasyAlgebra.wiskiMeanCache? K L c =
+      ((DMat.one.add ((L.transpose.mul K).mul L)).inv?).map (fun Bi => Fantasy.wiskiMeanCache K L Bi c) ∧
+    Gen.FantasyAlgebra.wiskiCovarInner? K L c =
+      ((DMat.one.add ((L.transpose.mul K).mul L)).inv?).map (fun Bi => Fantasy.wiskiCovarInner K L Bi) ∧
+    wiskiCacheTargets = [("fant_strat", "interp_inner_prod"), ("fant_strat", "interp_response_cache")] ∧
+    wiskiFantLikelihood = "self.likelihood.get_fantasy_likelihood(**kwargs)" := by
+  refine ⟨?_, rfl, ?_, ?_, by decide, by decide⟩
+  · simp only [wiskiInnerProd, wiskiInnerUpdate, DMat.toMatrix_add, DMat.toMatrix_mul, DMat.toMatrix_transpose,
+      transpose_mul, transpose_transpose]
+    rw [← hS]; simp only [Matrix.mul_assoc]
+  · have hq : ((L.transpose.mul (K.mul L)).add (DMat.smul (1 : α) DMat.one)) =
+        (DMat.one.add ((L.transpose.mul K).mul L)) := by
+      apply DMat.toMatrix_injective; simp [Matrix.mul_assoc, add_comm]
+    simp only [Gen.FantasyAlgebra.wiskiMeanCache?, hq]
+    cases (DMat.one.add ((L.transpose.mul K).mul L)).inv? <;> rfl
+  · have hq : ((L.transpose.mul (K.mul L)).add (DMat.smul (1 : α) DMat.one)) =
+        (DMat.one.add ((L.transpose.mul K).mul L)) := by
+      apply DMat.toMatrix_injective; simp [Matrix.mul_assoc, add_comm]
+    simp only [Gen.FantasyAlgebra.wiskiCovarInner?, hq]
+    cases (DMat.one.add ((L.transpose.mul K).mul L)).inv? <;> rfl
+
+/-- `FixedNoiseGaussianLikelihood.get_fantasy_likelihood` concatenates `[old noise; new noise]`, the same order in
+which `ExactGP.get_fantasy_model` concatenates `[train; fantasy]` targets and inputs. -/
+theorem gen_fixed_noise_concat_order (oldNoise : DMat n 1 α) (newNoise : DMat f 1 α) (tr : DMat n 1 α)
+    (ft : DMat f 1 α) :
+    Gen.FantasyAlgebra.fixedNoiseConcat oldNoise newNoise = Fantasy.fixedNoiseConcat oldNoise newNoise ∧
+    Gen.FantasyAlgebra.fullTargets tr ft = Fantasy.fullTargets tr ft ∧
+    fullInputsOrder = ["trainInputs", "inputs"] :=
+  ⟨rfl, rfl, by decide⟩
+
+/-- `IndependentModelList.get_fantasy_model`: member `i` is called with `(inputs[i], targets[i])` and the common
+keyword arguments plus **its own** `noise[i]` (none when that entry is `None`). -/
+theorem gen_model_list_routes (common : Route.Kw) (noise : Option (List (Option Nat))) (k : Nat)
+    (inputs targets : List Nat) (kws : List Route.Kw) :
+    modelListKwargs common noise k = Route.memberKwargs common noise k ∧
+    modelListCalls inputs targets kws = Route.memberCalls inputs targets kws := by
+  refine ⟨?_, rfl⟩
+  cases noise with
+  | none => rfl
+  | some ns =>
+    simp only [modelListKwargs, Route.memberKwargs]
+    apply List.map_congr_left
+    intro nz _
+    cases nz <;> rfl
+
+end generated
 
 /-! ## Non-vacuity: concrete rational instances of the hypotheses (evaluated by the kernel) -/
 
